@@ -77,10 +77,11 @@ set_option linter.unusedSectionVars false
     (afterCall P st h env').enabled = st.enabled := rfl
 @[simp] theorem afterCall_trace (P : Params R) (st : St R) (h : Hdr) (env' : Env) :
     (afterCall P st h env').trace =
-      .call P.tid .goc (cid P.tm) (keyOf h env') (sentKw P st h env') :: st.trace := rfl
+      .call (eff P h).tid .goc (cid (eff P h).tm) (keyOf h env') (sentKw P st h env') :: st.trace := rfl
 @[simp] theorem afterCall_regions (P : Params R) (st : St R) (h : Hdr) (env' : Env) (t' : Nat) :
     (afterCall P st h env').regions t' =
-      if t' = P.tid then (getCacheKw P.tm.cacheArgs (st.regions P.tid) (fname h) (sectionKw P.tm.page h env')).2
+      if t' = (eff P h).tid then (getCacheKw (eff P h).tm.cacheArgs (st.regions (eff P h).tid) (fname h)
+        (sectionKw (eff P h).tm.page h env')).2
       else st.regions t' := rfl
 
 /-! ### replay / monitor on the events of the model -/
@@ -196,21 +197,21 @@ theorem sync_preserved (w : World R) (P : Params R) (T : Items) (hbe : P.be = w.
   · intro st h _ hi hen
     refine ⟨by simpa using agree_emit_same _ _ _ hi.agree, ?_, by simpa [evReplay] using hi.rep,
       by simpa [evFresh] using hi.fresh, hi.le, hi.past⟩
-    have := hi.enabled P.tid
+    have := hi.enabled (eff P h).tid
     simp [evRuns, hi.runs, ← this, hen]
   · intro st h env' v _ hi hen hs
-    have hv := agree_visible P.be st _ hi.agree P.tid (backendKey P st h env')
+    have hv := agree_visible P.be st _ hi.agree (eff P h).tid (backendKey P st h env')
     rw [hs, hbe] at hv
-    have hen' := hi.enabled P.tid
-    have hag : Agree ((afterCall P st h env').emit (.enter P.tid (fname h) (backendKey P st h env') (.hit v)))
+    have hen' := hi.enabled (eff P h).tid
+    have hag : Agree ((afterCall P st h env').emit (.enter (eff P h).tid (fname h) (backendKey P st h env') (.hit v)))
         (replay w st.trace) := ⟨hi.agree.store, hi.agree.times, hi.agree.stamp, hi.agree.clock, hi.agree.enabled⟩
-    cases he : (replay w st.trace).visible w.be P.tid (backendKey P st h env') with
+    cases he : (replay w st.trace).visible w.be (eff P h).tid (backendKey P st h env') with
     | none => simp [he] at hv
     | some e =>
       simp [he] at hv
       -- the visible entry is the stored entry, and it is not older than the template
       have hst : (replay w st.trace).store (backendKey P st h env') = some e ∧
-          (!w.be.honoursStarttime || decide ((replay w st.trace).stamp P.tid ≤ e.time)) = true := by
+          (!w.be.honoursStarttime || decide ((replay w st.trace).stamp (eff P h).tid ≤ e.time)) = true := by
         unfold Spec.visible at he
         cases hs' : (replay w st.trace).store (backendKey P st h env') with
         | none => simp [hs'] at he
@@ -229,18 +230,18 @@ theorem sync_preserved (w : World R) (P : Params R) (T : Items) (hbe : P.be = w.
       · simp only [emit_trace, afterCall_trace, traceAll_cons, replay_cons, step_goc]
         simp only [evFresh, hst.1, hst.2, hi.fresh, Bool.and_self]
   · intro st h env' _ hi hen hs
-    have hv := agree_visible P.be st _ hi.agree P.tid (backendKey P st h env')
+    have hv := agree_visible P.be st _ hi.agree (eff P h).tid (backendKey P st h env')
     rw [hs, hbe] at hv
-    have hen' := hi.enabled P.tid
-    have hag : Agree ((afterCall P st h env').emit (.enter P.tid (fname h) (backendKey P st h env') .miss))
+    have hen' := hi.enabled (eff P h).tid
+    have hag : Agree ((afterCall P st h env').emit (.enter (eff P h).tid (fname h) (backendKey P st h env') .miss))
         (replay w st.trace) := ⟨hi.agree.store, hi.agree.times, hi.agree.stamp, hi.agree.clock, hi.agree.enabled⟩
     refine ⟨by simpa using hag, ?_, by simpa [evReplay] using hi.rep, by simpa [evFresh] using hi.fresh, hi.le, hi.past⟩
-    cases he : (replay w st.trace).visible w.be P.tid (backendKey P st h env') with
+    cases he : (replay w st.trace).visible w.be (eff P h).tid (backendKey P st h env') with
     | none => simp [evRuns, hi.runs, ← hen', hen, he]
     | some e => simp [he] at hv
   · intro st0 h body env' r key _ hi
     refine ⟨?_, by simpa [evRuns] using hi.runs, by simpa [evReplay] using hi.rep, by simpa [evFresh] using hi.fresh, ?_, ?_⟩
-    · simpa using agree_emit_same _ _ _ (agree_put _ _ hi.agree (cid P.tm, r, key) _ P.tid _)
+    · simpa using agree_emit_same _ _ _ (agree_put _ _ hi.agree (cid (eff P h).tm, r, key) _ (eff P h).tid _)
     · intro t; have := hi.le t; simp; omega
     · intro K v
       simp only [emit_store, put_store, emit_times, put_times, emit_clock, put_clock]
@@ -357,29 +358,45 @@ structure OwnInv (w : World R) (st : St R) : Prop where
 theorem own_init (w : World R) : OwnInv w (St.init w) :=
   ⟨fun K e h => by simp [St.init, Spec.init] at h, by simp [St.init]⟩
 
+/-- every section of the tree is declared by a template of the world, under that template's cache id -/
+def TreeHomesOK (w : World R) (P : Params R) (T : Items) : Prop :=
+  ∀ h, h ∈ hdrs T → ∃ tm, w.tmpls[(eff P h).tid]? = some tm ∧ cid tm = cid (eff P h).tm
+
+theorem treeHomesOK_of_world (w : World R) (hw : HomesOK w) (t : Nat) (tm : Tmpl) (c : Env)
+    (ht : w.tmpls[t]? = some tm) : TreeHomesOK w ⟨w.be, tm, t, c⟩ tm.tree := by
+  intro h hh
+  cases hhm : h.home with
+  | none => exact ⟨tm, by simp [eff, hhm, ht], by simp [eff, hhm]⟩
+  | some hm =>
+    obtain ⟨tm', h1, h2, _, _⟩ := hw t tm ht h hh hm hhm
+    exact ⟨tm', by simp [eff, hhm, h1], by simp [eff, hhm, cid, h2]⟩
+
 theorem own_preserved (w : World R) (P : Params R) (T : Items) (hd : IdsDistinct w)
-    (htm : w.tmpls[P.tid]? = some P.tm) : Preserved P T (OwnInv w) := by
+    (hwf : TreeHomesOK w P T) : Preserved P T (OwnInv w) := by
   constructor
   · intro st t hi
     exact ⟨by simpa using hi.owned, by simpa [evOwn] using hi.own⟩
   · intro st h _ hi _
     exact ⟨by simpa using hi.owned, by simpa [evOwn] using hi.own⟩
-  · intro st h env' v _ hi _ _
+  · intro st h env' v hh hi _ _
+    obtain ⟨tmh, htm, hcid⟩ := hwf h hh
     refine ⟨by simpa using hi.owned, ?_⟩
-    have : evOwn (replay w st.trace) (.enter P.tid (fname h) (backendKey P st h env') (.hit v)) = true := by
+    have : evOwn (replay w st.trace) (.enter (eff P h).tid (fname h) (backendKey P st h env') (.hit v)) = true := by
       simp only [evOwn]
       cases he : (replay w st.trace).store (backendKey P st h env') with
       | none => rfl
       | some e =>
         obtain ⟨tm', h1, h2⟩ := hi.owned _ e he
-        have : e.owner = P.tid := hd e.owner P.tid tm' P.tm h1 htm (by simpa [backendKey] using h2)
+        have : e.owner = (eff P h).tid :=
+          hd e.owner (eff P h).tid tm' tmh h1 htm (by rw [hcid]; simpa [backendKey] using h2)
         simp [this]
     simp only [emit_trace, afterCall_trace, traceAll_cons, replay_cons, step_goc]
     rw [this]
     simpa [evOwn] using hi.own
   · intro st h env' _ hi _ _
     exact ⟨by simpa using hi.owned, by simpa [evOwn] using hi.own⟩
-  · intro st0 h body env' r key _ hi
+  · intro st0 h body env' r key hh hi
+    obtain ⟨tmh, htm, hcid⟩ := hwf h hh
     refine ⟨?_, by simpa [evOwn] using hi.own⟩
     intro K e
     simp only [emit_trace, put_trace, replay_cons, step_created, spec_put_store]
@@ -387,7 +404,7 @@ theorem own_preserved (w : World R) (P : Params R) (T : Items) (hd : IdsDistinct
     · rename_i hK
       intro he
       cases he
-      exact ⟨P.tm, htm, by simp [hK]⟩
+      exact ⟨tmh, htm, by simp [hK, hcid]⟩
     · exact hi.owned K e
 
 theorem invalidateCore_own (w : World R) (tm : Tmpl) (t : Nat) (st : St R) (key : Str) (kw : Kw) (d : Str)
@@ -400,7 +417,7 @@ theorem invalidateCore_own (w : World R) (tm : Tmpl) (t : Nat) (st : St R) (key 
   · intro he; cases he
   · exact hi.owned K e
 
-theorem step_own (w : World R) (hd : IdsDistinct w) (st : St R) (op : Op) (hi : OwnInv w st) :
+theorem step_own (w : World R) (hd : IdsDistinct w) (hw : HomesOK w) (st : St R) (op : Op) (hi : OwnInv w st) :
     OwnInv w (step w st op).2 := by
   cases op with
   | render t c =>
@@ -408,7 +425,7 @@ theorem step_own (w : World R) (hd : IdsDistinct w) (st : St R) (op : Op) (hi : 
     cases ht : w.tmpls[t]? with
     | none => simpa using hi
     | some tm =>
-      exact run_preserves ⟨w.be, tm, t, c⟩ tm.tree (OwnInv w) (own_preserved w _ _ hd ht) _ c st (fun _ hh => hh) hi
+      exact run_preserves ⟨w.be, tm, t, c⟩ tm.tree (OwnInv w) (own_preserved w _ _ hd (treeHomesOK_of_world w hw t tm c ht)) _ c st (fun _ hh => hh) hi
   | invalidateBody t =>
     simp only [step]
     cases ht : w.tmpls[t]? with
@@ -459,11 +476,11 @@ theorem step_own (w : World R) (hd : IdsDistinct w) (st : St R) (op : Op) (hi : 
     | none => simpa using hi
     | some tm => exact ⟨by simpa using hi.owned, by simpa [evOwn] using hi.own⟩
 
-theorem runFrom_own (w : World R) (hd : IdsDistinct w) (ops : List Op) :
+theorem runFrom_own (w : World R) (hd : IdsDistinct w) (hw : HomesOK w) (ops : List Op) :
     ∀ (st : St R), OwnInv w st → OwnInv w (runFrom w st ops) := by
   induction ops with
   | nil => intro st hi; simpa [runFrom] using hi
-  | cons op ops ih => intro st hi; simpa [runFrom] using ih _ (step_own w hd st op hi)
+  | cons op ops ih => intro st hi; simpa [runFrom] using ih _ (step_own w hd hw st op hi)
 
 /-! ### the `_def_regions` memo -/
 
@@ -591,40 +608,40 @@ theorem runFrom_regMono (w : World R) (ops : List Op) :
   | nil => intro st0 st hi; simpa [runFrom] using hi
   | cons op ops ih => intro st0 st hi; simpa [runFrom] using ih st0 _ (step_regMono w st0 st op hi)
 
-/-- every memo entry was computed by a render of a section of that name of that template -/
+/-- every memo entry (of template `t`, callable `d`) was computed by a render – of some template `t'` of the world, in
+    whose call tree a section `h` named `d` and declared by `t` occurs – as Template ⊕ page ⊕ section arguments of `t` -/
 def MemoFromRender (w : World R) (st : St R) : Prop :=
-  ∀ (t : Nat) (tm : Tmpl) (d : Str) (r : Kw), w.tmpls[t]? = some tm → aGet (st.regions t) d = some r →
-    ∃ h, h ∈ hdrs tm.tree ∧ ∃ env, fname h = d ∧ r = aUpdate tm.cacheArgs (sectionKw tm.page h env)
+  ∀ (t : Nat) (d : Str) (r : Kw), aGet (st.regions t) d = some r →
+    ∃ (t' : Nat) (tm' : Tmpl) (c : Env) (h : Hdr) (env : Env), w.tmpls[t']? = some tm' ∧ h ∈ hdrs tm'.tree ∧
+      (eff ⟨w.be, tm', t', c⟩ h).tid = t ∧ fname h = d ∧
+      r = aUpdate (eff ⟨w.be, tm', t', c⟩ h).tm.cacheArgs (sectionKw (eff ⟨w.be, tm', t', c⟩ h).tm.page h env)
 
-theorem memo_preserved (w : World R) (P : Params R) (htm : w.tmpls[P.tid]? = some P.tm) :
-    Preserved P P.tm.tree (MemoFromRender w) := by
-  have key : ∀ (st : St R) (h : Hdr) (env' : Env), h ∈ hdrs P.tm.tree → MemoFromRender w st →
-      ∀ (t : Nat) (tm : Tmpl) (d : Str) (r : Kw), w.tmpls[t]? = some tm →
-        aGet ((afterCall P st h env').regions t) d = some r →
-        ∃ h, h ∈ hdrs tm.tree ∧ ∃ env, fname h = d ∧ r = aUpdate tm.cacheArgs (sectionKw tm.page h env) := by
-    intro st h env' hh hi t tm d r ht hr
+theorem memo_preserved (w : World R) (t0 : Nat) (tm0 : Tmpl) (c0 : Env) (ht0 : w.tmpls[t0]? = some tm0) :
+    Preserved ⟨w.be, tm0, t0, c0⟩ tm0.tree (MemoFromRender w) := by
+  have key : ∀ (st : St R) (h : Hdr) (env' : Env), h ∈ hdrs tm0.tree → MemoFromRender w st →
+      MemoFromRender w (afterCall ⟨w.be, tm0, t0, c0⟩ st h env') := by
+    intro st h env' hh hi t d r hr
     simp only [afterCall_regions] at hr
     split at hr
     · rename_i htt
-      subst htt
-      have htm' : tm = P.tm := by rw [htm] at ht; cases ht; rfl
-      subst htm'
-      rcases getCacheKw_regs P.tm.cacheArgs (st.regions P.tid) (fname h) (sectionKw P.tm.page h env') with h1 | ⟨_, _, h3⟩
-      · rw [h1] at hr; exact hi _ _ d r ht hr
+      rcases getCacheKw_regs (eff ⟨w.be, tm0, t0, c0⟩ h).tm.cacheArgs (st.regions (eff ⟨w.be, tm0, t0, c0⟩ h).tid) (fname h)
+        (sectionKw (eff ⟨w.be, tm0, t0, c0⟩ h).tm.page h env') with h1 | ⟨_, _, h3⟩
+      · rw [h1, ← htt] at hr; exact hi _ d r hr
       · rw [h3] at hr
         by_cases hdd : fname h = d
         · simp [aGet, hdd] at hr
-          exact ⟨h, hh, env', hdd, hr.symm⟩
+          exact ⟨t0, tm0, c0, h, env', ht0, hh, htt.symm, hdd, hr.symm⟩
         · simp [aGet, hdd] at hr
-          exact hi _ _ d r ht hr
-    · exact hi _ _ d r ht hr
+          rw [← htt] at hr
+          exact hi _ d r hr
+    · exact hi _ d r hr
   constructor
   · intro st t hi; exact hi
   · intro st h _ hi _; exact hi
-  · intro st h env' v hh hi _ _ t tm d r ht hr
-    exact key st h env' hh hi t tm d r ht (by simpa using hr)
-  · intro st h env' hh hi _ _ t tm d r ht hr
-    exact key st h env' hh hi t tm d r ht (by simpa using hr)
+  · intro st h env' v hh hi _ _ t d r hr
+    exact key st h env' hh hi t d r (by simpa using hr)
+  · intro st h env' hh hi _ _ t d r hr
+    exact key st h env' hh hi t d r (by simpa using hr)
   · intro st0 h body env' r key _ hi; exact hi
 
 theorem step_memo (w : World R) (st : St R) (op : Op) (hop : op.isCallableInvalidation = false)
@@ -635,7 +652,7 @@ theorem step_memo (w : World R) (st : St R) (op : Op) (hop : op.isCallableInvali
     cases ht : w.tmpls[t]? with
     | none => simpa using hi
     | some tm =>
-      exact run_preserves ⟨w.be, tm, t, c⟩ tm.tree (MemoFromRender w) (memo_preserved w ⟨w.be, tm, t, c⟩ ht) _ c st
+      exact run_preserves ⟨w.be, tm, t, c⟩ tm.tree (MemoFromRender w) (memo_preserved w t tm c ht) _ c st
         (fun _ hh => hh) hi
   | invalidateBody t => simp [Op.isCallableInvalidation] at hop
   | invalidateDef t d => simp [Op.isCallableInvalidation] at hop
@@ -645,11 +662,11 @@ theorem step_memo (w : World R) (st : St R) (op : Op) (hop : op.isCallableInvali
     cases ht : w.tmpls[t]? with
     | none => simpa using hi
     | some tm =>
-      intro t' tm' d r ht' hr
+      intro t' d r hr
       simp only [invalidateCore, del_regions, emit_regions, setRegions_regions, getCacheKw, if_true] at hr
       split at hr
-      · rename_i htt; subst htt; exact hi _ _ d r ht' hr
-      · exact hi _ _ d r ht' hr
+      · rename_i htt; subst htt; exact hi _ d r hr
+      · exact hi _ d r hr
   | set t k v kw =>
     simp only [step]
     cases ht : w.tmpls[t]? with
@@ -734,27 +751,27 @@ theorem run_snap (P : Params R) : ∀ (its : Items) (env : Env) (a b : St R), Sn
       subst hk; subst hv
       exact snapEq_emit _ _ _ _ (snapEq_put _ _ _ _ hxy)
     by_cases hc : h.cached = true
-    · by_cases hen : a.enabled P.tid = true
-      · have henb : b.enabled P.tid = true := by rw [← hs.enabled]; exact hen
-        cases hst : visible P.be a P.tid (backendKey P a h (scope P h env arg)) with
+    · by_cases hen : a.enabled (eff P h).tid = true
+      · have henb : b.enabled (eff P h).tid = true := by rw [← hs.enabled]; exact hen
+        cases hst : visible P.be a (eff P h).tid (backendKey P a h (scope P h env arg)) with
         | some v =>
-          have hstb : visible P.be b P.tid (backendKey P b h (scope P h env arg)) = some v := by
-            rw [← hK, ← visible_snap P.be a b P.tid _ hs]; exact hst
+          have hstb : visible P.be b (eff P h).tid (backendKey P b h (scope P h env arg)) = some v := by
+            rw [← hK, ← visible_snap P.be a b (eff P h).tid _ hs]; exact hst
           rw [run_inv_hit P env h arg site body rest a v hc hen hst, run_inv_hit P env h arg site body rest b v hc henb hstb]
           exact cont _ _ v v rfl (snapEq_emit _ _ _ _ (snapEq_afterCall P a b h (scope P h env arg) hs))
         | none =>
-          have hstb : visible P.be b P.tid (backendKey P b h (scope P h env arg)) = none := by
-            rw [← hK, ← visible_snap P.be a b P.tid _ hs]; exact hst
+          have hstb : visible P.be b (eff P h).tid (backendKey P b h (scope P h env arg)) = none := by
+            rw [← hK, ← visible_snap P.be a b (eff P h).tid _ hs]; exact hst
           rw [run_inv_miss P env h arg site body rest a hc hen hst, run_inv_miss P env h arg site body rest b hc henb hstb]
           have hb := ihb (scope P h env arg) _ _ (snapEq_emit _ _
-            (.enter P.tid (fname h) (backendKey P a h (scope P h env arg)) .miss)
-            (.enter P.tid (fname h) (backendKey P b h (scope P h env arg)) .miss)
+            (.enter (eff P h).tid (fname h) (backendKey P a h (scope P h env arg)) .miss)
+            (.enter (eff P h).tid (fname h) (backendKey P b h (scope P h env arg)) .miss)
             (snapEq_afterCall P a b h (scope P h env arg) hs))
           exact cont _ _ _ _ (by rw [hb.1]) (done _ _ _ _ _ _ _ _ hb.2 hK (by rw [hb.1]))
-      · have hen' : a.enabled P.tid = false := by simpa using hen
-        have henb : b.enabled P.tid = false := by rw [← hs.enabled]; exact hen'
+      · have hen' : a.enabled (eff P h).tid = false := by simpa using hen
+        have henb : b.enabled (eff P h).tid = false := by rw [← hs.enabled]; exact hen'
         rw [run_inv_disabled P env h arg site body rest a hc hen', run_inv_disabled P env h arg site body rest b hc henb]
-        have hb := ihb (scope P h env arg) _ _ (snapEq_emit a b (.bypass P.tid (fname h)) (.bypass P.tid (fname h)) hs)
+        have hb := ihb (scope P h env arg) _ _ (snapEq_emit a b (.bypass (eff P h).tid (fname h)) (.bypass (eff P h).tid (fname h)) hs)
         exact cont _ _ _ _ (by rw [hb.1]) hb.2
     · have hc' : h.cached = false := by simpa using hc
       rw [run_inv_uncached P env h arg site body rest a hc', run_inv_uncached P env h arg site body rest b hc']
@@ -777,8 +794,8 @@ def ProvOK (w : World R) (s : Spec R) : Prop :=
   ∀ K e, s.store K = some e →
     match e.prov with
     | .manual => True
-    | .creation c => ∃ tm, w.tmpls[e.owner]? = some tm ∧
-        e.val = sectionValue ⟨w.be, tm, e.owner, c.ctx⟩ c.env c.h c.body c.pre.toSt
+    | .creation c => ∃ tm, w.tmpls[c.rtid]? = some tm ∧
+        e.val = sectionValue ⟨w.be, tm, c.rtid, c.ctx⟩ c.env c.h c.body c.pre.toSt
 
 structure ProvInv (w : World R) (st : St R) : Prop where
   sync : Sync w st
@@ -940,15 +957,15 @@ theorem runFrom_prov (w : World R) (ops : List Op) : ∀ (st : St R), ProvInv w 
 theorem invalidateCore_memo_late (w : World R) (tm : Tmpl) (t : Nat) (st : St R) (key d : Str)
     (hlate : (aGet (st.regions t) d).isSome = true) (hi : MemoFromRender w st) :
     MemoFromRender w (invalidateCore w.be tm t st key [] d) := by
-  intro t' tm' d' r ht' hr
+  intro t' d' r hr
   simp only [invalidateCore, del_regions, emit_regions, setRegions_regions] at hr
   split at hr
   · rename_i htt
     subst htt
     rcases getCacheKw_regs tm.cacheArgs (st.regions t') d [] with h1 | ⟨_, h2, _⟩
-    · rw [h1] at hr; exact hi _ _ d' r ht' hr
+    · rw [h1] at hr; exact hi _ d' r hr
     · rw [h2] at hlate; simp at hlate
-  · exact hi _ _ d' r ht' hr
+  · exact hi _ d' r hr
 
 theorem step_memo_late (w : World R) (st : St R) (op : Op)
     (hop : (match op.invalidatedCallable with
